@@ -37,11 +37,12 @@ class _Session:
         self.resp = Response(status, 'x'); self.body = body
         return self.resp
     def download(self, file=None):
+        # as client.Session.download does: the body is written into the caller's file at its current offset, which is restored afterwards
         if False: yield
         from wpull.body import Body
-        import io
         self.hops.pop(0)
-        self.resp.body = Body(io.BytesIO(self.body))
+        original = file.tell(); file.write(self.body); file.flush(); file.seek(original)
+        self.resp.body = Body(file)
 
 
 def replay_fetch(doc):
@@ -56,7 +57,9 @@ def replay_fetch(doc):
     bad = []
     rules = b'User-agent: *\nDisallow: /private\n'
     for name, hops, expect in [('200', [(200, rules)], 'obey'), ('404', [(404, b'nope')], 'allow'), ('503', [(503, b'')], 'postpone'), ('500 with rules', [(500, rules)], 'postpone'),
-                               ('301 then 200', [(301, b''), (200, rules)], 'obey'), ('302 then 503', [(302, b''), (503, b'')], 'postpone'), ('protocol error', [(ProtocolError('x'), b'')], 'allow')]:
+                               ('301 then 200', [(301, b''), (200, rules)], 'obey'),
+                               ('301 with a long notice body then 200 with rules that end without a newline', [(301, b'<html><body>' + b'moved ' * 60 + b'</body></html>'), (200, rules.rstrip(b'\n'))], 'obey'),
+                               ('200 after two redirects with bodies', [(302, b'x' * 500), (301, b'y' * 300), (200, b'User-agent: *\nDisallow: /private')], 'obey'), ('302 then 503', [(302, b''), (503, b'')], 'postpone'), ('protocol error', [(ProtocolError('x'), b'')], 'allow')]:
         log = []
         class WC:
             def session(self, request): return _Session(hops, log)
@@ -76,7 +79,7 @@ def replay_fetch(doc):
             shim.run(chk.can_fetch(Request('http://h.example/other'), file=f2))
             if len(log) != n1: bad.append('robots.txt answered %s: requested again for the next URL of the origin' % name)
     if bad: return True, '; '.join(bad)
-    return False, '7 robots.txt response scripts handled as the statement says'
+    return False, '9 robots.txt response scripts handled as the statement says'
 
 
 def replay_agent(doc):
